@@ -374,7 +374,7 @@ def sim_states(path, only: set | None = None) -> list[dict]:
     for block in re.split(r"^STATE_\d+ ==\s*$", text, flags=re.M)[1:]:
         block = re.split(r"^\\\*", block, flags=re.M)[0]
         st = {}
-        for m in re.finditer(r"^/\\ (\w+) = (.*?)(?=^/\\ |\Z)", block, flags=re.M | re.S):
+        for m in re.finditer(r"^(?:/\\ )?(\w+) = (.*?)(?=^/\\ |\Z)", block, flags=re.M | re.S):
             if only is None or m.group(1) in only:
                 st[m.group(1)] = parse_tla(m.group(2))
         states.append(st)
